@@ -611,6 +611,8 @@ impl<'a, 'b> Gen<'a, 'b> {
                 _ => {
                     let (fi, args) = self.src.pick(ctor_atoms).clone();
                     head.push(Action::Delete(fi, args));
+                    // a delete next to a rule that re-creates the row can loop forever under saturate
+                    closed = false;
                 }
             }
         }
